@@ -98,7 +98,7 @@ def exhaustive(pairs, length):
 def gen_cases(rng, n):
     """n counts the random stream; the small-scope exhaustive stream is added on top:
     every schedule prefix of length L over two threads for each script pair (after the prefix: round-robin)."""
-    quick = n <= 20000
+    quick = n <= 50000
     cases = []
     L = 9 if quick else 13
     cases += exhaustive(PAIRS, L)
